@@ -12,9 +12,11 @@ Definition live_auth (eqf : str -> str -> bool) (t now : Z) (u : user) (h : str)
   existsb (fun e => negb (expired t now (fst e)) && eqf h (snd e)) (u_auth u).
 (* one of the account's own masks matches *)
 Definition mask_match (u : user) (h : str) : bool := existsb (fun p => hmatch p h) (u_masks u).
-(* the property's notion of "sender h is account u" *)
+(* the property's notion of "sender h is account u": one of its masks matches,
+   or it identified from exactly h and has not timed out - which, for a secure
+   account, does not count without a matching mask *)
 Definition recog (t now : Z) (u : user) (h : str) : bool :=
-  live_auth seq_eqb t now u h || mask_match u h.
+  (live_auth seq_eqb t now u h && negb (u_secure u)) || mask_match u h.
 
 Lemma scan_auth_hit eqf t now h auth rem :
   fst (scan_auth eqf t now h auth rem) =
@@ -32,14 +34,36 @@ Proof.
   destruct (hmatch p h); [reflexivity|exact IH].
 Qed.
 
-Lemma checkHostmask_truthy istr t now u h :
+Lemma checkHostmask_truthy_gen istr t now u h :
   truthy (snd (checkHostmask istr t now u h true)) =
-  live_auth (if istr then ieq else seq_eqb) t now u h || mask_match u h.
+  live_auth (auth_eq istr u h) t now u h || mask_match u h.
 Proof.
   unfold checkHostmask, live_auth, mask_match.
   rewrite <- (scan_auth_hit _ t now h (u_auth u) []).
-  destruct (scan_auth (if istr then ieq else seq_eqb) t now h (u_auth u) []) as [hit rem].
+  destruct (scan_auth (auth_eq istr u h) t now h (u_auth u) []) as [hit rem].
   cbn [fst]. destruct hit; cbn [snd orb]; [reflexivity|apply first_match_truthy].
+Qed.
+
+Lemma existsb_andb_const {A} (f : A -> bool) (c : bool) l : existsb (fun e => f e && c) l = existsb f l && c.
+Proof.
+  induction l as [|x l IH]; [reflexivity|]. cbn [existsb]. rewrite IH.
+  destruct (f x), c, (existsb f l); reflexivity.
+Qed.
+
+Lemma live_auth_eq istr t now u h :
+  live_auth (auth_eq istr u h) t now u h =
+  live_auth (if istr then ieq else seq_eqb) t now u h && (negb (u_secure u) || mask_match u h).
+Proof.
+  unfold live_auth, auth_eq. rewrite first_match_truthy. fold (mask_match u h).
+  rewrite <- existsb_andb_const. induction (u_auth u) as [|e l IH]; [reflexivity|].
+  cbn [existsb]. rewrite IH, andb_assoc. reflexivity.
+Qed.
+
+Lemma checkHostmask_truthy t now u h :
+  truthy (snd (checkHostmask false t now u h true)) = recog t now u h.
+Proof.
+  rewrite checkHostmask_truthy_gen, live_auth_eq. unfold recog. cbv iota.
+  destruct (live_auth seq_eqb t now u h), (u_secure u), (mask_match u h); reflexivity.
 Qed.
 
 Lemma scan_users_ids t now h us :
@@ -48,10 +72,10 @@ Lemma scan_users_ids t now h us :
 Proof.
   induction us as [|[i u] us IH]; [reflexivity|].
   cbn [scan_users filter snd].
-  pose proof (checkHostmask_truthy false t now u h) as Ht. cbn iota in Ht.
+  pose proof (checkHostmask_truthy t now u h) as Ht.
   destruct (checkHostmask false t now u h true) as [u' x]. cbn [snd] in Ht.
   destruct (scan_users t now h us) as [r' ids]. cbn [snd] in *.
-  unfold recog. rewrite <- Ht. destruct (truthy x); cbn [map fst]; rewrite IH; reflexivity.
+  rewrite <- Ht. destruct (truthy x); cbn [map fst]; rewrite IH; reflexivity.
 Qed.
 
 (* the accounts that recognise h, cache-free *)
